@@ -175,4 +175,141 @@ theorem SSE2.refused_or_correct (raw : RawCfg) (lv : Leaves) (hl : LeafLaws lv) 
   | ok cfg =>
     exact Or.inr ⟨cfg, rfl, fun K1 db hK hkeys hvalid hcap => C01.SSE2.correct raw cfg hc lv hl K1 hK db hkeys hvalid hcap⟩
 
+
+/-! ### the remaining label-addressed schemes: refused, or loud at setup, or — under the run's distinctness facts, which the
+    driver evaluates on every recorded case — the token of every stored keyword is generated and answered with exactly its
+    list.  Each statement ranges over EVERY raw configuration; the side conditions (`0 < idxSize`, `2 ≤ log2 s`) are the
+    ones under which the scheme can address its array at all. -/
+
+theorem PiPack.refused_or_correct (raw : RawCfg) (lv : Leaves) (hl : LeafLaws lv) (K : Bytes) (db : DB) (t : Tape)
+    (w : Bytes) (ids : List Bytes) (hm : (w, ids) ∈ db) (hv : ValidIdsFor raw ids) :
+    (∃ e, PiPack.cfgBuild raw = .error e) ∨
+    ∃ cfg, PiPack.cfgBuild raw = .ok cfg ∧
+      ((∃ e, Chain.setup cfg lv K db t = .error e) ∨
+       ∃ D t', Chain.setup cfg lv K db t = .ok (D, t') ∧
+         ((∀ L, Chain.encDb cfg lv K db t = .ok (L, t') → C01.Chain.NoColl cfg lv K db L) →
+           ∃ tk, Chain.token cfg lv K w = .ok tk ∧ Chain.search cfg lv D tk = .ok ids)) := by
+  cases hc : PiPack.cfgBuild raw with
+  | error e => exact Or.inl ⟨e, rfl⟩
+  | ok cfg =>
+    refine Or.inr ⟨cfg, rfl, ?_⟩
+    cases hs : Chain.setup cfg lv K db t with
+    | error e => exact Or.inl ⟨e, rfl⟩
+    | ok r =>
+      obtain ⟨D, t'⟩ := r
+      exact Or.inr ⟨D, t', rfl, fun hnc => C01.PiPack.search_stored raw cfg hc lv hl K db t t' D hs hnc w ids hm hv⟩
+
+theorem PiPtr.refused_or_correct (raw : RawCfg) (lv : Leaves) (hl : LeafLaws lv) (K : Bytes) (db : DB) (t : Tape)
+    (hsample : ∀ avail t0, takeNats t = .ok (avail, t0) → avail.Nodup ∧ ∀ p ∈ avail, 0 < p)
+    (w : Bytes) (ids : List Bytes) (hm : (w, ids) ∈ db) (hne : ids ≠ []) :
+    (∃ e, PiPtr.cfgBuild raw = .error e) ∨
+    ∃ cfg, PiPtr.cfgBuild raw = .ok cfg ∧
+      ((∃ e, PiPtr.setup cfg lv K db t = .error e) ∨
+       ∃ edb t', PiPtr.setup cfg lv K db t = .ok (edb, t') ∧
+         (C17.ValidIds ids cfg.idSize.toNat →
+          (∀ L A avail t0, takeNats t = .ok (avail, t0) →
+            PiPtr.encDb cfg lv K (bytesFor (PiPtr.arrayLen cfg db)) db avail (List.replicate (PiPtr.arrayLen cfg db) none) t0
+              = .ok (L, A, t') → PiPtr.NoColl cfg lv K L w ids) →
+           ∃ tk, PiPtr.token cfg lv K w = .ok tk ∧ PiPtr.search cfg lv edb tk = .ok ids)) := by
+  cases hc : PiPtr.cfgBuild raw with
+  | error e => exact Or.inl ⟨e, rfl⟩
+  | ok cfg =>
+    refine Or.inr ⟨cfg, rfl, ?_⟩
+    cases hs : PiPtr.setup cfg lv K db t with
+    | error e => exact Or.inl ⟨e, rfl⟩
+    | ok r =>
+      obtain ⟨edb, t'⟩ := r
+      exact Or.inr ⟨edb, t', rfl, fun hv hnc =>
+        C01.PiPtr.search_stored raw cfg hc lv hl K db t t' edb hs hsample w ids hm hne hv hnc⟩
+
+theorem Pi2Lev.refused_or_correct (raw : RawCfg) (lv : Leaves) (hl : LeafLaws lv) (K : Bytes) (db : DB) (t : Tape)
+    (hsample : ∀ avail t0, takeNats t = .ok (avail, t0) → avail.Nodup ∧ ∀ p ∈ avail, 0 < p)
+    (w : Bytes) (ids : List Bytes) (hm : (w, ids) ∈ db) (hne : ids ≠ []) :
+    (∃ e, Pi2Lev.cfgBuild raw = .error e) ∨
+    ∃ cfg, Pi2Lev.cfgBuild raw = .ok cfg ∧
+      ((∃ e, Pi2Lev.setup cfg lv K db t = .error e) ∨
+       ∃ edb t', Pi2Lev.setup cfg lv K db t = .ok (edb, t') ∧
+         (0 < cfg.idxSize → C17.ValidIds ids cfg.idSize.toNat →
+          (∀ L A avail t0, takeNats t = .ok (avail, t0) →
+            Pi2Lev.encDb cfg lv K db avail (List.replicate (Pi2Lev.arrayLen cfg db) none) t0 = .ok (L, A, t') →
+              (L.map (·.1)).Nodup) →
+           ∃ tk, Pi2Lev.token cfg lv K w = .ok tk ∧ Pi2Lev.search cfg lv edb tk = .ok ids)) := by
+  cases hc : Pi2Lev.cfgBuild raw with
+  | error e => exact Or.inl ⟨e, rfl⟩
+  | ok cfg =>
+    refine Or.inr ⟨cfg, rfl, ?_⟩
+    cases hs : Pi2Lev.setup cfg lv K db t with
+    | error e => exact Or.inl ⟨e, rfl⟩
+    | ok r =>
+      obtain ⟨edb, t'⟩ := r
+      exact Or.inr ⟨edb, t', rfl, fun hidx hv hnc =>
+        C01.Pi2Lev.search_stored raw cfg hc hidx lv hl K db t t' edb hs hsample w ids hm hne hv hnc⟩
+
+theorem CT14.refused_or_correct (raw : RawCfg) (lv : Leaves) (hl : LeafLaws lv) (K : Bytes) (db : DB) (t : Tape)
+    (hg : GoodTape t) (w : Bytes) (ids : List Bytes) :
+    (∃ e, CT14.cfgBuild raw = .error e) ∨
+    ∃ cfg, CT14.cfgBuild raw = .ok cfg ∧
+      ((∃ e, CT14.setup cfg lv K db t = .error e) ∨
+       ∃ HT t', CT14.setup cfg lv K db t = .ok (HT, t') ∧
+         ((∀ x ∈ ids, x.length = cfg.idSize.toNat) →
+          (∀ pdb t1, padLoop cfg.idSize.toNat (2 ^ clog2 db.total) (2 ^ clog2 db.total + 1) db db.total t = .ok (pdb, t1) →
+            (w, ids) ∈ pdb) →
+          (∀ TL, CT14.setupLists cfg lv K db t = .ok (TL, t') → CT14.NoColl cfg lv K TL w ids) →
+           ∃ tk, CT14.token cfg lv K w = .ok tk ∧ CT14.search cfg lv HT tk = .ok ids)) := by
+  cases hc : CT14.cfgBuild raw with
+  | error e => exact Or.inl ⟨e, rfl⟩
+  | ok cfg =>
+    refine Or.inr ⟨cfg, rfl, ?_⟩
+    cases hs : CT14.setup cfg lv K db t with
+    | error e => exact Or.inl ⟨e, rfl⟩
+    | ok r =>
+      obtain ⟨HT, t'⟩ := r
+      exact Or.inr ⟨HT, t', rfl, fun hidlen hpad hnc =>
+        C01.CT14.search_stored raw cfg hc lv hl K db t t' HT hs hg w ids hidlen hpad hnc⟩
+
+theorem ANSS16.refused_or_correct (raw : RawCfg) (lv : Leaves) (hl : LeafLaws lv) (K : Bytes) (db : DB) (t : Tape)
+    (hg : GoodTape t) (w : Bytes) (ids : List Bytes) :
+    (∃ e, ANSS16.cfgBuild raw = .error e) ∨
+    ∃ cfg, ANSS16.cfgBuild raw = .ok cfg ∧
+      ((∃ e, ANSS16.setup cfg lv K db t = .error e) ∨
+       ∃ edb t', ANSS16.setup cfg lv K db t = .ok (edb, t') ∧
+         ((∀ x ∈ ids, x.length = cfg.idSize.toNat) →
+          (∀ pdb t1, padLoop cfg.idSize.toNat (2 ^ clog2 db.total) (2 ^ clog2 db.total + 1) db db.total t = .ok (pdb, t1) →
+            (w, ids) ∈ pdb) →
+          (∀ SL TL, ANSS16.setupLists cfg lv K db t = .ok (SL, TL, t') →
+            (SL.map (·.1)).Nodup ∧ ∀ l ∈ TL, (l.map (·.1)).Nodup) →
+           ∃ tk, ANSS16.token cfg lv K w = .ok tk ∧ ANSS16.search cfg lv edb tk = .ok ids)) := by
+  cases hc : ANSS16.cfgBuild raw with
+  | error e => exact Or.inl ⟨e, rfl⟩
+  | ok cfg =>
+    refine Or.inr ⟨cfg, rfl, ?_⟩
+    cases hs : ANSS16.setup cfg lv K db t with
+    | error e => exact Or.inl ⟨e, rfl⟩
+    | ok r =>
+      obtain ⟨edb, t'⟩ := r
+      exact Or.inr ⟨edb, t', rfl, fun hidlen hpad hnc =>
+        C01.ANSS16.search_stored raw cfg hc lv hl K db t t' edb hs hg w ids hidlen hpad hnc⟩
+
+/-- SSE-1: no collision hypothesis on ψ or π (both derived from C15); what is left is about the random fillers of this run -/
+theorem SSE1.refused_or_correct (raw : RawCfg) (lv : Leaves) (hl : LeafLaws lv) (K1 K2 K3 K4 : Bytes) (db : DB) (t : Tape)
+    (hkeys : (db.map (·.1)).Nodup) (hvalid : ∀ p ∈ db, NoLeadingNul p.1) (w : Bytes) (ids : List Bytes) (hm : (w, ids) ∈ db) :
+    (∃ e, SSE1.cfgBuild raw = .error e) ∨
+    ∃ cfg, SSE1.cfgBuild raw = .ok cfg ∧
+      ((∃ e, SSE1.setup cfg lv [K1, K2, K3, K4] db t = .error e) ∨
+       ∃ edb t', SSE1.setup cfg lv [K1, K2, K3, K4] db t = .ok (edb, t') ∧
+         (2 ≤ cfg.log2s → 2 ≤ (cfg.l * 8).toNat → SSE1.KeysGood cfg t →
+          (∀ p ∈ db, ∀ x ∈ p.2, x.length = cfg.idSize.toNat) → ids.length ≤ cfg.s.toNat →
+          (∀ g, SSE1.piBytes cfg lv K3 w = .ok g → ∀ b, Draw.bytes b ∈ t → b ≠ g) →
+           ∃ tk, SSE1.token cfg lv [K1, K2, K3, K4] w = .ok tk ∧ SSE1.search cfg lv edb tk = .ok ids)) := by
+  cases hc : SSE1.cfgBuild raw with
+  | error e => exact Or.inl ⟨e, rfl⟩
+  | ok cfg =>
+    refine Or.inr ⟨cfg, rfl, ?_⟩
+    cases hs : SSE1.setup cfg lv [K1, K2, K3, K4] db t with
+    | error e => exact Or.inl ⟨e, rfl⟩
+    | ok r =>
+      obtain ⟨edb, t'⟩ := r
+      exact Or.inr ⟨edb, t', rfl, fun h2 hl8 hk hidl hsz hfresh =>
+        C01.SSE1.search_stored_valid raw cfg hc lv hl h2 hl8 K1 K2 K3 K4 db t t' edb hs hk hidl hkeys hvalid w ids hm hsz hfresh⟩
+
 end SSEPy.C08
